@@ -303,6 +303,16 @@ def run(rep):
     rep.guarded("R-C04-allocate", rule_allocate)
     import C16
     rep.guarded("R-C16-process", C16.rule_process)
+    # next ≤ max for the fixed-output types rests on the request tracking the read position exactly (an under-provisioned ramp
+    # lets last_index drift upwards and the following request exceeds input_frames_max): shared with C06
+    import C06
+    for t in ("SincFixedOut", "FastFixedOut"):
+        def prov(rep, t=t):
+            m = asyncmodel.extract(facts, t)
+            for a in m["arms"]:
+                a.setdefault("t_before_idx", True)
+            C06.rule_provision(rep, t, m)
+        rep.guarded("R-C06-provision", prov)
     rep.floor("R-C04-agree", 1 + 14)
     rep.floor("R-C04-counter", 2 + 9)
     rep.floor("R-C04-max-const", 14)
@@ -311,6 +321,7 @@ def run(rep):
     rep.floor("R-C04-max-bound", 2)
     rep.floor("R-C04-fft-formulas", 3)
     rep.floor("R-C16-process", 10)
+    rep.floor("R-C06-provision", 15)
     rep.clause("R-C04-agree", "per type: getter ≡ validated minimum ≡ slice bound actually read ≡ returned count (input side, on the pre-state; bit-exact normal forms modulo alias classes of immutable fields), and getter ≡ validated minimum (≡ returned count for fixed-output / synchronous) on the output side")
     rep.clause("R-C04-counter", "fixed-input types return the loop's frame counter, incremented once per frame after the write at [n]")
     rep.clause("R-C04-max-const", "*_frames_max() read only fields that no method but the constructor assigns")
@@ -318,6 +329,7 @@ def run(rep):
     rep.clause("R-C04-allocate", "input/output_buffer_allocate size by the *_frames_max() getters and nbr_channels(); make_buffer / resize_buffer give every channel that size")
     rep.clause("R-C04-outbound", "fixed-input: the advertised output count accounts for the carried position (today it does not: known finding)")
     rep.clause("R-C04-fft-formulas", "FFT adapters use the same block formulas in constructor, getters and the end-of-call update")
+    rep.clause("R-C06-provision", "the fixed-output request covers exactly the closed-form read position in every calling context (shared with C06): otherwise input_frames_next() overshoots input_frames_max() after a ramp")
     rep.clause("R-C16-process", "process() sizes its output with output_frames_next() and truncates to the written count (shared with C16)")
     rep.not_decided += ["numeric inequalities next ≤ max under the ratio constraints (chunk·mean(r,t)+10 ≤ max_chunk·orig·max_rel+10 etc.)", "exactness of the f32 block arithmetic: C07 (R-C07-exact)"]
     rep.trusted += ["syn parser", "sympy"]
